@@ -53,6 +53,9 @@ func (m *Mutex) TryLock() bool {
 		return m.real.TryLock()
 	}
 	s.Point("trylock", m)
+	if n, ok := s.(interface{ NoteTryLock() }); ok {
+		n.NoteTryLock()
+	}
 	if m.locked {
 		return false
 	}
